@@ -905,6 +905,142 @@ func runRejectInert(c *Ctx) {
 				}
 			})
 			c.Check(len(problems) == 0, "REJECT", fname, "rejected rows leave no trace", p.pos(fn.Pos()), fmt.Sprintf("none of the %d reject paths through the row loop has a persistent effect", nReject), strings.Join(dedup(problems), "; "))
+			// a row is rejected for what the row itself says (and the tables built before the loop), never for what an
+			// earlier row said: the conditions that decide a rejection do not read a loop-carried variable or a collection
+			// that this loop fills (a "same as the previous row" or "already seen" guard drops valid rows of another trip
+			// or shape when rows are interleaved, and makes the result depend on the row order)
+			{
+				filled := map[ssa.Value]bool{}
+				for b := range l.Blocks {
+					for _, in := range b.Instrs {
+						if mu, ok := in.(*ssa.MapUpdate); ok {
+							filled[mu.Map] = true
+							if mc := mapCellOf(c, mu.Map); mc != nil {
+								filled[mc] = true
+							}
+						}
+					}
+				}
+				reachesAccept := func(from *ssa.BasicBlock) bool {
+					seen := map[*ssa.BasicBlock]bool{}
+					work := []*ssa.BasicBlock{from}
+					for len(work) > 0 {
+						cur := work[len(work)-1]
+						work = work[:len(work)-1]
+						if seen[cur] || !l.Blocks[cur] || cur == l.Header {
+							continue
+						}
+						seen[cur] = true
+						if accepts[cur] {
+							return true
+						}
+						work = append(work, cur.Succs...)
+					}
+					return false
+				}
+				var earlier []string
+				nDecisive := 0
+				for b := range l.Blocks {
+					if b == l.Header {
+						continue
+					}
+					iff, ok := b.Instrs[len(b.Instrs)-1].(*ssa.If)
+					if !ok || len(b.Succs) != 2 {
+						continue
+					}
+					r0, r1 := reachesAccept(b.Succs[0]), reachesAccept(b.Succs[1])
+					if r0 == r1 {
+						continue
+					}
+					nDecisive++
+					why := ""
+					seen := map[ssa.Value]bool{}
+					var walk func(v ssa.Value, d int)
+					walk = func(v ssa.Value, d int) {
+						if v == nil || seen[v] || why != "" || d > 14 {
+							return
+						}
+						seen[v] = true
+						switch x := v.(type) {
+						case *ssa.Phi:
+							if x.Block() == l.Header {
+								if sl, isSl := x.Type().Underlying().(*types.Slice); isSl && strings.Contains(sl.Elem().String(), "warnings.") {
+									return
+								}
+								why = "the loop-carried variable " + x.Comment
+								return
+							}
+							for _, e := range x.Edges {
+								walk(e, d+1)
+							}
+						case *ssa.BinOp:
+							walk(x.X, d+1)
+							walk(x.Y, d+1)
+						case *ssa.UnOp:
+							walk(x.X, d+1)
+						case *ssa.Extract:
+							walk(x.Tuple, d+1)
+						case *ssa.Lookup:
+							if filled[x.X] || (mapCellOf(c, x.X) != nil && filled[mapCellOf(c, x.X)]) {
+								why = "the collection " + describeMapExpr(x.X) + ", which this loop fills"
+								return
+							}
+							walk(x.Index, d+1)
+						case *ssa.Call:
+							if _, isB := x.Call.Value.(*ssa.Builtin); isB {
+								for _, a := range x.Call.Args {
+									walk(a, d+1)
+								}
+								return
+							}
+							if strings.Contains(calleeName(x), "/csv.") {
+								return
+							}
+							// a helper of the module: only the arguments its answer depends on (what it tests or returns)
+							if h := staticCallee(x); h != nil && p.isModuleFn(h) && len(h.Blocks) > 0 && len(h.Params) == len(x.Call.Args) {
+								infl := paramsInfluencingResult(h)
+								for i, a := range x.Call.Args {
+									if infl[h.Params[i]] {
+										walk(a, d+1)
+									}
+								}
+								return
+							}
+							for _, a := range x.Call.Args {
+								walk(a, d+1)
+							}
+						case *ssa.Convert:
+							walk(x.X, d+1)
+						case *ssa.ChangeType:
+							walk(x.X, d+1)
+						case *ssa.Field:
+							walk(x.X, d+1)
+						case *ssa.FieldAddr:
+							walk(x.X, d+1)
+						case *ssa.IndexAddr:
+							walk(x.X, d+1)
+							walk(x.Index, d+1)
+						case *ssa.Index:
+							walk(x.X, d+1)
+							walk(x.Index, d+1)
+						case *ssa.Slice:
+							walk(x.X, d+1)
+						case *ssa.Alloc:
+							// a local copy made in this iteration: what was copied in
+							if l.Blocks[x.Block()] {
+								for _, sv := range cellStores(x) {
+									walk(sv, d+1)
+								}
+							}
+						}
+					}
+					walk(iff.Cond, 0)
+					if why != "" {
+						earlier = append(earlier, p.ipos(iff)+": the test that decides whether the row is kept reads "+why)
+					}
+				}
+				c.Check(len(earlier) == 0, "REJECT", fname, "a row is rejected for what it says itself", p.pos(fn.Pos()), fmt.Sprintf("none of the %d tests that decide a rejection reads a loop-carried variable or a collection the loop fills", nDecisive), strings.Join(dedup(earlier), "; ")+": whether a valid row is kept then depends on the rows before it (rows of different trips or shapes may be interleaved in any order)")
+			}
 		}
 	}
 }
@@ -1726,4 +1862,74 @@ func runCacheCoherenceStruct(c *Ctx) {
 			}
 		}
 	}
+}
+
+// paramsInfluencingResult: the parameters of f that a branch condition or a returned value of f is computed from
+// (through arithmetic, loads, field and element selections, lookups and calls); a parameter that is only written
+// through is not among them.
+func paramsInfluencingResult(f *ssa.Function) map[*ssa.Parameter]bool {
+	out := map[*ssa.Parameter]bool{}
+	seen := map[ssa.Value]bool{}
+	var walk func(v ssa.Value, d int)
+	walk = func(v ssa.Value, d int) {
+		if v == nil || seen[v] || d > 16 {
+			return
+		}
+		seen[v] = true
+		switch x := v.(type) {
+		case *ssa.Parameter:
+			out[x] = true
+		case *ssa.Phi:
+			for _, e := range x.Edges {
+				walk(e, d+1)
+			}
+		case *ssa.BinOp:
+			walk(x.X, d+1)
+			walk(x.Y, d+1)
+		case *ssa.UnOp:
+			walk(x.X, d+1)
+		case *ssa.Extract:
+			walk(x.Tuple, d+1)
+		case *ssa.Lookup:
+			walk(x.X, d+1)
+			walk(x.Index, d+1)
+		case *ssa.Call:
+			for _, a := range x.Call.Args {
+				walk(a, d+1)
+			}
+		case *ssa.Convert:
+			walk(x.X, d+1)
+		case *ssa.ChangeType:
+			walk(x.X, d+1)
+		case *ssa.Field:
+			walk(x.X, d+1)
+		case *ssa.FieldAddr:
+			walk(x.X, d+1)
+		case *ssa.IndexAddr:
+			walk(x.X, d+1)
+			walk(x.Index, d+1)
+		case *ssa.Index:
+			walk(x.X, d+1)
+			walk(x.Index, d+1)
+		case *ssa.Slice:
+			walk(x.X, d+1)
+		case *ssa.Alloc:
+			for _, sv := range cellStores(x) {
+				walk(sv, d+1)
+			}
+		case *ssa.MakeInterface:
+			walk(x.X, d+1)
+		}
+	}
+	for _, b := range f.Blocks {
+		switch t := b.Instrs[len(b.Instrs)-1].(type) {
+		case *ssa.If:
+			walk(t.Cond, 0)
+		case *ssa.Return:
+			for _, r := range t.Results {
+				walk(r, 0)
+			}
+		}
+	}
+	return out
 }
